@@ -109,7 +109,7 @@ EarlyComplete(us, q) == Clean(q) /\ us[q[1].u].tmpl.t = "psi" /\ PSIComplete(us[
 \* returns [q |-> new queue, flush |-> group handed to parseData or <<>>]
 Add(us, q, p, pid, pmap) ==
   LET same(x) == x # <<>> /\ p.cc = Last(x).cc /\ p.pusi = Last(x).pusi /\ p.u = Last(x).u /\ p.off = Last(x).off /\ p.n = Last(x).n   \* same counter, same payload
-      disc(x) == p.disc \/ (x # <<>> /\ p.cc # (Last(x).cc + 1) % 16)
+      disc(x) == (p.disc /\ ~(p.pusi /\ x # <<>> /\ p.cc = (Last(x).cc + 1) % 16)) \/ (x # <<>> /\ p.cc # (Last(x).cc + 1) % 16)
       dupFirst == ~HasDev("DiscBeforeDup")
       isDup == IF dupFirst THEN same(q) ELSE (~disc(q)) /\ same(q)          \* as-is: after the reset the queue is empty, never "same"
       q1 == IF disc(q) THEN <<>> ELSE q
